@@ -53,6 +53,24 @@ class Monitor(Observer):
 def check_program(ctx, bt, spec, b, log):
     for key, msg in M.index_check(bt, b.strategy, len(b.dates), bt.core.PAR):
         ctx.violation("C03/" + key, msg, {"spec": spec, "mode": "program"})
+    # "fees do move the index": the schedule handed to the Backtest is charged on every trade anywhere in its tree, at any depth
+    # (the harness' own view of each trade: quantity, execution price x multiplier, the fee the parent booked for it)
+    if spec.get("comm") and log:
+        fn = E.make_comm(*spec["comm"])
+        top = id(b.strategy)
+        for t in log:
+            if t["paper"] != top or t["after"][0] == t["before"][0]:
+                continue          # (another tree; or nothing was traded: a zero quantity is not charged)
+            px = t["custom"] if t["custom"] is not None else t["price"]
+            if px != px:
+                continue
+            want = float(fn(t["q"], px * t["mult"]))
+            got = float(t["after"][2] - t["before"][2])
+            ctx.count("trade-fees-checked")
+            if abs(got - want) > 1e-9 * max(1.0, abs(want), abs(t["after"][2])):
+                ctx.violation("C03/fee-not-charged", "%s on %s: trade of %r at %r x %r booked a fee of %r on %s, the backtest's commission schedule gives %r"
+                              % (t["sec"], t["now"], t["q"], px, t["mult"], got, t["parent"], want), {"spec": spec, "mode": "program"})
+                break
     # the flows the recurrence is evaluated with must be the flows that were really injected: every external `adjust(flow=True)`
     # on the root (initial capital, CapitalFlow, user algos - also those issued with update=False) is in the row of its date
     flows = getattr(b, "_verif_flow_log", None)
@@ -168,6 +186,15 @@ def run(ctx, bt):
     run_engine_protocol(ctx, bt, ctx.scale(25, 400), [Monitor(ctx)], FOOT_FIELDS, None, spec_kwargs={"fi_tree": False},
                         spec_mutator=_G.carry_tree, corr_name="step[C03]:carry-under-market-value-root")
     run_programs(ctx, bt, ctx.scale(70, 1500), check_program)
+    # three strategy levels with a commission schedule given at the top
+    from .. import whole_run as _W
+    for _ in range(ctx.scale(20, 400)):
+        sp3 = _W.gen_spec(ctx.rng, nested=True, depth3=True)
+        if sp3["comm"][0] == 0:
+            sp3["comm"] = ctx.rng.choice([[3, 0, 0.001], [2, 0, 0.0078125], [1, 2.0, 0], [5, 1.0, 0.001]])
+        ctx.evaluations += 1
+        ctx.count("programs:three-levels-with-commissions")
+        run_one(ctx, bt, sp3, check_program)
     cash_only(ctx, bt, ctx.scale(15, 300))
     scale_twins(ctx, bt, ctx.scale(25, 500))
     from ..runs_run import run_steps_protocol
